@@ -117,12 +117,13 @@ def check_formula(f, x, tol):
         xx, yy, zz = x[int(e[0])], x[int(e[1])], x[int(e[2])]
         if zz < -tol:
             return 'exponential cone %s has z=%.3g < 0' % ([int(v) for v in e], zz)
-        if zz > 1e-9:
-            v = zz * np.exp(min(xx / zz, 700)) - yy
-            if v > 10 * tol * (1 + abs(yy)):
-                return 'exponential cone %s violated by %.3g' % ([int(v_) for v_ in e], v)
-        elif xx > 10 * tol or yy < -10 * tol:
-            return 'exponential cone %s violated at z=0' % ([int(v) for v in e],)
+        # membership up to a perturbation of the point by the solver tolerance (z*exp(x/z) is arbitrarily steep near z = 0,
+        # so a residual of the inequality itself is not a meaningful distance there)
+        d = 10 * tol * (1 + max(abs(xx), abs(yy), abs(zz)))
+        z2 = max(zz, 0.0) + d
+        v = z2 * np.exp(min((xx - d) / z2, 700)) - (yy + d)
+        if v > 0:
+            return 'exponential cone %s violated by %.3g (after a %.1g perturbation)' % ([int(v_) for v_ in e], v, d)
     return None
 
 
